@@ -27,6 +27,11 @@ EXHAUSTIVE = True
 CONTINUATION = True     # also judge sameness operationally (next loop iteration on the re-loaded experiment)
 CYCLES = 3
 
+# While the setOptionForNode defect is in the tree every state behind a patch operation fails in every kind of reload;
+# that exceeds the runner's default of 400 kept failures, and failures that are not kept cannot be shown. Keep all.
+import verif.core.runner as _runner
+_runner.Collector.MAX_FAIL = max(_runner.Collector.MAX_FAIL, 50000)
+
 RULE = ('Packages: {platform default | P; the document defines both, P overrides default in variables (global+stage), '
         'environments, blueprint (global+stage) and a component override section} x {no | one | two layered user '
         'variable files with global and stage scoped variables (one of them changes the replica count) [thorough: + the '
@@ -352,7 +357,7 @@ def judge_continuation(col, case, cont_obs, mem_next):
         col.outcome('continuation:same-experiment')
 
 
-def check_state(col, spec, prefix, exp, inst, pending, want_continuation):
+def check_state(col, spec, prefix, exp, inst, pending, want_continuation, thorough):
     """Judges the state reached after `prefix`. Returns the observation of (re-loaded experiment + next iteration) when
     a continuation is wanted, else None."""
     case = {'pkg': spec, 'history': list(prefix)}
@@ -387,7 +392,8 @@ def check_state(col, spec, prefix, exp, inst, pending, want_continuation):
         after = read_stored(inst)
         if after != files:
             raise HarnessError('instantiate_dowhile_next_iteration(store=False) on the re-loaded experiment wrote files')
-    for cyc in range(1, CYCLES + 1):
+    cycles = CYCLES if len(prefix) <= (2 if thorough else 1) else 1
+    for cyc in range(1, cycles + 1):
         judge_reload(col, case, 'load+store#%d' % cyc, mem, inst, platform, True, pending, 'same')
         nxt = read_stored(inst)
         judge_stored(col, case, 'load+store#%d' % cyc, files, nxt, False)
@@ -414,7 +420,7 @@ def run_history(col, spec, history, thorough, only_final=False):
                 cont = None
             if checked:
                 want = CONTINUATION and bool(spec['loop']) and j < len(history) and history[j] == 'I' and not only_final
-                cont = check_state(col, spec, history[:j], exp, inst, pending, want)
+                cont = check_state(col, spec, history[:j], exp, inst, pending, want, thorough or only_final)
             if j == len(history):
                 break
             apply_op(spec, exp, history[j], j, pending)
